@@ -198,6 +198,8 @@ type group struct {
 	errs     map[string]string // named error values / error constructors (by text prefix) -> error string
 	binders  map[string]string // `h, _ := <text>` / `h := <text>` statements that bind an interface handle: text -> handle name (DECLARED)
 	skips    map[string]string // statements (by text prefix) left out of the translation, with the DECLARED reason
+	// statements (by text prefix) whose only modelled effect is one operation of the record applied to the named variables
+	effects map[string][2]string
 	// `switch x := <handle>.(type)`: concrete type -> tag; the record gets an operation `typeTag_<handle>` and inside the
 	// cases x stands for the handle `<x>T`
 	typeSwitch map[string]int
@@ -463,12 +465,15 @@ func init() {
 			skips: map[string]string{
 				"ctx, cancel := context.WithTimeout(context.Background(), timeout)": "the deadline `timeout` is part of the operation `cmd.Output`",
 				"defer cancel()": "releases the context's timer",
-				"cmd := exec.CommandContext(ctx, executable, args...)": "the command and its arguments are part of the operation `cmd.Output`",
 				"cmd.WaitDelay = cmdWaitDelay":                         "the wait delay is part of the operation `cmd.Output`",
 				"var exitError *exec.ExitError":                        "only used to choose the log text",
 				"if errors.As(err, &exitError) {":                      "both branches only log",
 			},
+			effects: map[string][2]string{"cmd := exec.CommandContext(ctx, executable, args...)": {"commandContext", "executable"}},
 			ops: []op{
+				{goText: "filepath.Base", lean: "base", args: []string{"String"}, ret: "String"},
+				{goText: "exec.LookPath", lean: "lookPath", args: []string{"String"}, ret: "String × Option String"},
+				{goText: "exec.CommandContext", lean: "commandContext", args: []string{"String"}, ret: "Unit"},
 				{goText: "CheckFilePermissionsForExecution", lean: "checkPerm", args: []string{"String"}, ret: "Bool × Option String"},
 				{goText: "cmd.Output", lean: "cmdOutput", ret: "String × Option String"},
 				{goText: "ctx.Err", lean: "ctxErr", ret: "Option String"},
@@ -935,6 +940,10 @@ func (t *tr) binary(e *ast.BinaryExpr) ex {
 	ty := l.ty
 	if l.ty == "const" {
 		ty = r.ty
+	}
+	if l.ty == "String" && r.ty == "String" && (e.Op == token.EQL || e.Op == token.NEQ) {
+		op := map[token.Token]string{token.EQL: "=", token.NEQ: "≠"}[e.Op]
+		return ex{"(" + l.s + " " + op + " " + r.s + ")", "Prop"}
 	}
 	if l.ty == "Option String" && r.ty == "Option String" && (e.Op == token.EQL || e.Op == token.NEQ) {
 		// comparison of error values: identity of sentinel errors is equality of their strings
@@ -1428,6 +1437,20 @@ func (t *tr) sameScopeRedecl(name string) bool { return t.scopeOf[name] == t.lev
 
 func (t *tr) stmt(st ast.Stmt) []string {
 	ln := line(st)
+	for k, eff := range cur.effects {
+		if strings.HasPrefix(str(st), k) {
+			var as []string
+			for _, v := range strings.Split(eff[1], ",") {
+				n, ok := t.names[v]
+				if !ok {
+					fail("line %d: `%s`: %s is not a variable here", ln, k, v)
+				}
+				as = append(as, n)
+			}
+			t.note(st, "`%s`: modelled as the operation %s on %s (DECLARED by the translator's table)", k, eff[0], eff[1])
+			return []string{"ops." + eff[0] + " " + strings.Join(as, " ")}
+		}
+	}
 	for k, why := range cur.skips {
 		if strings.HasPrefix(str(st), k) {
 			if is, ok := st.(*ast.IfStmt); ok && !t.onlyLogs(is) {
